@@ -283,7 +283,8 @@ class ClsNode(Node):
             kw: t.Dict[str, t.Any] = {}
             naming = fs.get('naming')
             if naming is not None:
-                kw[naming[0]] = naming[1] if naming[0] == 'rename' else tuple(naming[1])
+                # (aliases / in_names are documented as *lists* of names; tuples work as well: both spellings, chosen by the field name)
+                kw[naming[0]] = naming[1] if naming[0] == 'rename' else (list if len(f.name) % 2 == 0 else tuple)(naming[1])
             if fs.get('out_name') is not None:
                 kw['out_name'] = fs['out_name']
             if fs.get('kw_only'):
